@@ -74,10 +74,18 @@ def main():
                 case.setdefault("ord", kk if kk % 2 else None)
             try:
                 evs = mod.run_case(case, ctx)
-            except Exception:
-                sys.stderr.write("driver error on case %s\n" % json.dumps(case)[:2000])
-                traceback.print_exc()
-                sys.exit(3)
+            except Exception as ex:
+                # An exception nobody expected.  If it was raised INSIDE the library (some frame of the traceback is in the
+                # circuitgraph package) on an input the property speaks about, that is a verdict about the code: it is
+                # recorded as an event and judged (clause unexpected_exception).  Raised in the harness itself: machinery.
+                tb = traceback.extract_tb(ex.__traceback__)
+                lib = [f for f in tb if os.sep + "circuitgraph" + os.sep in f.filename]
+                if not lib:
+                    sys.stderr.write("driver error on case %s\n" % json.dumps(case)[:2000])
+                    traceback.print_exc()
+                    sys.exit(3)
+                evs = [{"kind": "driver_exception", "exc": type(ex).__name__,
+                        "where": "%s:%s" % (os.path.basename(lib[-1].filename), lib[-1].name), "nontrivial": True}]
             if isinstance(evs, dict):
                 evs = [evs]
             for e in evs:
